@@ -88,9 +88,17 @@ type c10wEpisode struct {
 	Wait       string `json:"waits_for"` // none | peer_list | own-peer_joined (before the first send)
 	Pace       string `json:"pace"`      // tight | yield
 	Bursts     []int  `json:"bursts"`
-	BurstClass string `json:"burst_class"` // single | few | many | overflow
-	Seed       uint64 `json:"seed"`
+	BurstClass string `json:"burst_class"` // single | few | many | overflow | flood-stalled | flood-free
+	// Link (flood bursts): stalled = the client's TCP connection does not take any byte from the moment the burst
+	// starts until the author has made its 258th Send call (256 queued + 1 in the writer's hand + 1), i.e. until
+	// more envelopes are outstanding than the client queue holds; free = nothing is held back, the burst simply
+	// outruns the writer.
+	Link string `json:"link,omitempty"`
+	K    int    `json:"k_in_wave"`
+	Seed uint64 `json:"seed"`
 }
+
+func (ep *c10wEpisode) id() string { return fmt.Sprintf("r%d-s%d-w%d-k%d", ep.Round, ep.Sess, ep.Wave, ep.K) }
 
 type c10wSend struct {
 	G         uint64        `json:"g"`
@@ -133,6 +141,7 @@ type c10wConn struct {
 
 	raw      *vk.WSClient
 	wc       *wsclient.Conn
+	link     *c10wLink // flood authors: frame counter / stall gate underneath the real wsclient
 	cancel   context.CancelFunc
 	readDone chan struct{}
 
@@ -230,6 +239,7 @@ type c10wRoundCfg struct {
 	Sessions int    `json:"sessions"`
 	Waves    int    `json:"waves"`
 	Slots    int    `json:"author_slots_per_session"`
+	Flood    bool   `json:"flood_round,omitempty"` // only quiet waves with bursts beyond the client queue, authors linger
 }
 
 type c10wRound struct {
@@ -314,7 +324,12 @@ func (rd *c10wRound) dial(sess int, id, role, layer string, stay bool, ep *c10wE
 		c.DialOK = true
 		return c
 	}
-	wc, err := wsclient.Dial(context.Background(), url, c10wLogger)
+	dctx := context.Background()
+	if ep != nil && ep.Link != "" {
+		c.link = &c10wLink{}
+		dctx = context.WithValue(dctx, c10wLinkKey{}, c.link)
+	}
+	wc, err := wsclient.Dial(dctx, url, c10wLogger)
 	if err != nil {
 		return c
 	}
@@ -364,12 +379,8 @@ type c10wOp struct {
 	Kind, Target, To, FromClass, From, SidClass, Sid, Type string
 }
 
-func (rd *c10wRound) send(c *c10wConn, op c10wOp, wave, pos int, tail bool) bool {
-	c.sendMu.Lock()
-	defer c.sendMu.Unlock()
-	if c.closed.Load() {
-		return false
-	}
+// prep builds the envelope and the send-log record of the connection's next message (caller holds c.sendMu).
+func (rd *c10wRound) prep(c *c10wConn, op c10wOp, wave, pos int, tail bool) (protocol.Envelope, c10wSend) {
 	g := uint64(rd.cfg.Round+1)<<40 | rd.gid.Add(1)
 	c.n++
 	p := c10Payload{VF: "c10w", G: g, A: c.Idx, N: c.n, K: op.Kind, P: wave}
@@ -385,7 +396,18 @@ func (rd *c10wRound) send(c *c10wConn, op c10wOp, wave, pos int, tail bool) bool
 		env.SessionID = op.Sid
 	}
 	rec := c10wSend{G: g, A: c.Idx, N: c.n, Kind: op.Kind, Target: op.Target, To: op.To, FromClass: op.FromClass, From: op.From,
-		SidClass: op.SidClass, Sid: op.Sid, Type: op.Type, Wave: wave, Pos: pos, Tail: tail, Pay: p, T0: vk.MonoNow(), Routable: op.Kind != "invalid-version"}
+		SidClass: op.SidClass, Sid: op.Sid, Type: op.Type, Wave: wave, Pos: pos, Tail: tail, Pay: p, Routable: op.Kind != "invalid-version"}
+	return env, rec
+}
+
+func (rd *c10wRound) send(c *c10wConn, op c10wOp, wave, pos int, tail bool) bool {
+	c.sendMu.Lock()
+	defer c.sendMu.Unlock()
+	if c.closed.Load() {
+		return false
+	}
+	env, rec := rd.prep(c, op, wave, pos, tail)
+	rec.T0 = vk.MonoNow()
 	var err error
 	if c.Layer == "raw" {
 		err = c.raw.SendJSON(env)
@@ -485,6 +507,10 @@ func (rd *c10wRound) genOp(r *vk.Rng, c *c10wConn, reach bool) c10wOp {
 }
 
 func (rd *c10wRound) runEpisode(ep *c10wEpisode) {
+	// journal: the parent process attributes a crash of this process (a panic in a goroutine of the client
+	// library cannot be recovered here) to the episodes that had begun and not ended
+	c10wJournalLine("B", ep)
+	defer c10wJournalLine("E", ep)
 	r := vk.NewRng(ep.Seed)
 	stay := rd.sess[ep.Sess].Stay
 	for part, k := range ep.Bursts {
@@ -528,6 +554,14 @@ func (rd *c10wRound) runEpisode(ep *c10wEpisode) {
 			filler = 270 // more than wsclient's send queue (256): Send blocks until the writer has drained
 		}
 		var tail *c10wSend // copy of the last message of the burst
+		var burst []c10wSend
+		if strings.HasPrefix(ep.BurstClass, "flood") {
+			burst = rd.floodBurst(r, ep, c, k)
+			if len(burst) > 0 && burst[len(burst)-1].Tail {
+				tail = &burst[len(burst)-1]
+			}
+			filler, k = 0, 0
+		}
 		for i := 0; i < filler+k; i++ {
 			var op c10wOp
 			if i < filler {
@@ -555,7 +589,20 @@ func (rd *c10wRound) runEpisode(ep *c10wEpisode) {
 		case "linger":
 			// control class: the author stays until every staying destination has the last message of the burst
 			// ("stays connected a little longer", expressed as an event)
-			if tail != nil {
+			if burst != nil {
+				// flood: until every message of the burst is at every staying destination – order is judged on
+				// what arrived, and nothing is outstanding in the client when Close is called
+				c10wWait(func() bool {
+					for i := range burst {
+						for _, m := range stay {
+							if burst[i].Accepted && (burst[i].To == "" || burst[i].To == m.PeerID) && !m.hasG(burst[i].G) {
+								return false
+							}
+						}
+					}
+					return true
+				}, c10wLingerWait)
+			} else if tail != nil {
 				c10wWait(func() bool {
 					for _, m := range stay {
 						if (tail.To == "" || tail.To == m.PeerID) && !m.hasG(tail.G) {
@@ -576,6 +623,9 @@ func (rd *c10wRound) runEpisode(ep *c10wEpisode) {
 // waiting for the server's greeting, and whose handlers may exit without a peer_left) come last in a session's
 // schedule, so that no late peer_left of theirs can travel towards the author of a quiet episode.
 func (rd *c10wRound) planWave(r *vk.Rng, s, wave int, ungreeted bool) (eps []*c10wEpisode, inbound string) {
+	if rd.cfg.Flood {
+		return rd.planFloodWave(r, s, wave), "quiet"
+	}
 	si := rd.sess[s]
 	inbound = "busy-greeted"
 	long := false
@@ -604,7 +654,7 @@ func (rd *c10wRound) planWave(r *vk.Rng, s, wave int, ungreeted bool) (eps []*c1
 	}
 	for k := 0; k < w; k++ {
 		slot := perm[k%len(perm)]
-		ep := &c10wEpisode{Round: rd.cfg.Round, Wave: wave, Sess: s, Slot: slot, PeerID: si.Slots[slot], Seed: r.U64(),
+		ep := &c10wEpisode{Round: rd.cfg.Round, Wave: wave, Sess: s, Slot: slot, K: k, PeerID: si.Slots[slot], Seed: r.U64(),
 			Inbound: inbound, Pace: "tight", Wait: "peer_list"}
 		if inbound == "quiet" {
 			ep.Wait = "own-peer_joined"
@@ -709,6 +759,9 @@ func (rd *c10wRound) leftSeen(s int) bool {
 func (rd *c10wRound) runSession(r *vk.Rng, s int) {
 	si := rd.sess[s]
 	uwaves := (rd.cfg.Waves + 2) / 3
+	if rd.cfg.Flood {
+		uwaves = 0
+	}
 	for wave := 0; wave < rd.cfg.Waves+uwaves && !rd.broken.Load(); wave++ {
 		eps, inbound := rd.planWave(r, s, wave, wave >= rd.cfg.Waves)
 		rd.mu.Lock()
